@@ -580,8 +580,9 @@ pub fn run(ctx: &mut Ctx) {
         }
         "live" => {
             let (max, depth) = if ctx.tier_thorough { (5, 9) } else { (4, 7) };
-            bfs_live::<i32>(ctx, "i32", vec![1, 2], max, depth, 2_000_000);
-            bfs_live::<Item>(ctx, "Item", vec![item_of(&Tree::I(1)), item_of(&Tree::L(vec![Tree::I(1)]))], 3, if ctx.tier_thorough { 7 } else { 5 }, 2_000_000);
+            let cap = if ctx.tier_thorough { 500_000 } else { 50_000 };
+            bfs_live::<i32>(ctx, "i32", vec![1, 2], max, depth, cap);
+            bfs_live::<Item>(ctx, "Item", vec![item_of(&Tree::I(1)), item_of(&Tree::L(vec![Tree::I(1)]))], 3, if ctx.tier_thorough { 7 } else { 5 }, cap);
         }
         "float" => {
             // values that print alike to one decimal / differ by one ulp; NaN (never equal to itself by ==, equal by text)
